@@ -438,6 +438,9 @@ class Check:
             tail = "" if found else " no-failing-input-found"
             print(f"VIOLATION property={self.pid} replay={path}{tail}")
             rc = 1
+        if os.environ.get("VERIF_DEBUG"):
+            for replay, found in vio:
+                print(f"  [debug] {replay.get('site')} | {str(replay.get('what'))[:300]}")
         ev = {"property_id": self.pid, "tier": self.tier, "seed": self.seed, "level": level, "coverage": cov,
               "assumptions": self.assumptions, "wall_s": round(time.time() - self.t0, 2),
               "violations": len(self.violations)}
